@@ -4,6 +4,7 @@ import (
 	"context"
 	"fmt"
 	"sync"
+	"sync/atomic"
 	"testing"
 	"time"
 
@@ -112,13 +113,33 @@ func TestC07Threads(t *testing.T) {
 				}
 			}()
 		}
+		// heartbeat: tells a wedged store from a starved machine
+		var beats int64
+		hbStop := make(chan struct{})
+		go func() {
+			tk := time.NewTicker(10 * time.Millisecond)
+			defer tk.Stop()
+			for {
+				select {
+				case <-tk.C:
+					atomic.AddInt64(&beats, 1)
+				case <-hbStop:
+					return
+				}
+			}
+		}()
 		close(start)
 		fin := make(chan struct{})
 		go func() { wg.Wait(); close(fin) }()
 		select {
 		case <-fin:
+			close(hbStop)
 		case <-time.After(20 * time.Second):
-			panic("HARNESS-ERROR: store calls still running after 20 s of wall clock")
+			close(hbStop)
+			if atomic.LoadInt64(&beats) < 700 {
+				panic("HARNESS-ERROR: store calls still running after 20 s of wall clock and the machine is starved")
+			}
+			rt.Fatalf("STORE HANGS: StoreInternal / StoreExternal calls did not return within 20 s although the machine was responsive (n=%d t=%d, %d goroutines)", n, thr, g)
 		}
 		close(errs)
 		for err := range errs {
